@@ -152,6 +152,10 @@ pub fn c07_payload(p: &[u8], out: &mut Vec<Viol>, counts: &mut Counts) {
     }
     // iterator encoder
     let lim = f.len() + 64;
+    let long_poll = p.len() <= 1 || p.len() >= 250 || (p.len() == 5 && p[0] == p[4]);
+    if long_poll {
+        counts.inc("payloads whose ended iterator was polled 66000 more times");
+    }
     match guarded(|| {
         let mut it = encode_streaming(p);
         let mut v = Vec::with_capacity(f.len());
@@ -167,9 +171,16 @@ pub fn c07_payload(p: &[u8], out: &mut Vec<Viol>, counts: &mut Counts) {
         }
         let mut after = vec![];
         if ended {
-            for _ in 0..3 {
+            // "ends for good": a few further polls for every payload, and beyond every 8- and
+            // 16-bit counter width for a sample of payloads (an end counter that keeps running
+            // would wrap there)
+            let polls = if long_poll { 66_000 } else { 3 };
+            for _ in 0..polls {
                 if let Some(b) = it.next() {
                     after.push(b);
+                    if after.len() >= 8 {
+                        break;
+                    }
                 }
             }
         }
@@ -497,9 +508,9 @@ pub fn run(prop: &str, tier: Tier) -> ! {
     let golden = golden_binding(&ctx);
     let alpha: Vec<u8> = alphabet_variant();
     let (n_short, f): (u32, &(dyn Fn(&[u8], &mut Vec<Viol>, &mut Counts) + Sync)) = match prop {
-        "C07" => (tier.pick(8, 11), &c07_payload),
-        "C01" => (tier.pick(7, 10), &c01_payload),
-        "C16" => (tier.pick(6, 8), &c16_payload),
+        "C07" => (tier.pick(10, 13), &c07_payload),
+        "C01" => (tier.pick(9, 12), &c01_payload),
+        "C16" => (tier.pick(8, 10), &c16_payload),
         _ => crate::report::machinery("e2: unknown property"),
     };
     let longs = if prop == "C16" { vec![] } else { long_payloads(tier, &alpha) };
